@@ -1,13 +1,20 @@
 import Driver.Sexp
 import Pcore.Model.Tls
+import Pcore.Model.TlsSmall
+import Pcore.Model.TlsFacts
 /-!
 Driver ops for C14 (syntax shared with harness/c14):
 
     prog <term>                 run `pcore.Do(term)` on a fresh goroutine, empty schedule (children run after the root ended)
     progs (d0 d1 …) <term>      the same with the scheduling oracle d0 d1 …  (see Model/Tls.lean `yield`)
+    progi (d0 d1 …) <term>      leaf-level interleaving (Model/TlsSmall.lean `runI`): every goroutine is parked before each
+                                leaf operation; choice d resumes runnable goroutine number d mod #runnable
 
-    term ::= (obs) | (set k n) | (get k) | (push n) | (deftype a) | (load a) | (panic)
+    term ::= (obs) | (set k n) | (get k) | (del k) | (push n) | (pop) | (deftype a) | (load a) | (panic)
            | (doctx id term…) | (doparent id term…) | (do id term…) | (try id term…) | (doloader term…) | (fork term…) | (go term…) | (seq term…) | (recover term…)
+
+The model variant run by `prog`/`progs` is `implVer`: selected by the regenerated shape table `Generated/CtxFacts.lean`
+(`Model/TlsFacts.lean`); `progi` runs the small-step model of the code as it is now.
 
 Output: `g0:N ev ev … | g1:P ev … ; cur=- live=0` — one block per goroutine in creation order (`N` normal, `P` panicked),
 events `o<tag>[stack]` (`!` appended when CurrentContext() is not the context handed to the body, `o-` no current
@@ -31,6 +38,8 @@ partial def progOf : Sexp → Option Prog
   | .list [.atom "set", .atom k, n] => if okAtom k then n.nat?.map (.set k) else none
   | .list [.atom "get", .atom k] => if okAtom k then some (.get k) else none
   | .list [.atom "push", n] => n.nat?.map .push
+  | .list [.atom "pop"] => some .pop
+  | .list [.atom "del", .atom k] => if okAtom k then some (.del k) else none
   | .list [.atom "deftype", .atom a] => if okAtom a then some (.deftype a) else none
   | .list [.atom "load", .atom a] => if okAtom a then some (.load a) else none
   | .list (.atom "doctx" :: id :: ts) => do
@@ -89,7 +98,7 @@ def render (w : World) : String :=
   if w.oof then "fuel" else
   let gs := (List.range w.nextGid).map (goroutine w.log)
   let cur := tlGet 0 ctxKey w
-  let tag := cur.bind fun c => aget tagKey (w.ctxs c).vars
+  let tag := cur.bind fun c => (w.ctxs c).tag
   " | ".intercalate gs ++ s!" ; cur={tagStr cur tag} live={live w}"
 
 def schedOf : Sexp → Option (List Nat)
@@ -99,11 +108,15 @@ def schedOf : Sexp → Option (List Nat)
 def exec : List Sexp → String
   | [.atom "prog", t] =>
     match progOf t with
-    | some p => render (run .now [] p)
+    | some p => render (run implVer [] p)
     | none => "bad-op"
   | [.atom "progs", s, t] =>
     match schedOf s, progOf t with
-    | some sc, some p => render (run .now sc p)
+    | some sc, some p => render (run implVer sc p)
+    | _, _ => "bad-op"
+  | [.atom "progi", s, t] =>
+    match schedOf s, progOf t with
+    | some sc, some p => render (runI sc p).w
     | _, _ => "bad-op"
   | _ => "bad-op"
 
